@@ -199,6 +199,7 @@ func init() {
 						add(tpl, 1, 2, 3, 1000+(1|4|8), 1000, ord) // one chunk
 					}
 					add(tpl, 1, 2, 2, 1000+(16|32|128), 1000, 0) // unchunked
+					add(tpl, 1, 2, 3, 1000+(2|8|64), 1, 0)       // statistics optional
 				}
 				add(7, 1, 2, 3, 1000+(16|32|2), 1000, 0)
 				add(1, 1, 2, 1, 1000+(1|8|64|4), 1000, 0)
@@ -560,8 +561,12 @@ func init() {
 				at(1, 3, 3, part)
 				if tier == "thorough" {
 					at(3, 8, 2, part)
-					at(0, 1, 2, part)
-					at(1, 0, 3, part)
+					if part != 2 {
+						at(0, 1, 2, part) // empty name: nothing to damage in part 2
+					}
+					if part != 1 {
+						at(1, 0, 3, part) // empty data: nothing to damage in part 1
+					}
 				}
 			}
 			return js
